@@ -66,7 +66,7 @@ func runC06(c *Ctx) {
 		c.R.Fail("R-C06-2", fn+":lastMulticast", fn, c.pos(sch.Pos()), "no loop-carried time compared via time.Since", "a last-multicast timestamp is kept across iterations", "anchor-missing: rate limiter state not found")
 		return
 	}
-	lastSym := "loop:" + last.Comment
+	lastSym := an.LoopSym(last)
 	nM := 0
 	for _, p := range ps {
 		if !p.Cut {
